@@ -1,4 +1,11 @@
+mod c05;
+mod c10;
+mod data;
+mod source;
+
 fn main() {
-    eprintln!("no sub-commands yet");
-    std::process::exit(2);
+    vf_kit::dispatch! {
+        "c05" => c05::C05,
+        "c10" => c10::C10,
+    }
 }
